@@ -222,6 +222,7 @@ pub async fn execute(plan: Plan, dir: &Path) -> RunOutcome {
         tokio::task::yield_now().await;
         let snap = dir.join(format!("snap{idx}"));
         let _ = std::fs::remove_dir_all(&snap);
+        wait_sqlite_closed(&base);
         if copy_dir_all(&base, &snap).is_err() {
             let _ = dev.open().await;
             continue;
